@@ -1,13 +1,21 @@
 #!/bin/bash
-# tools/run_seeded.sh <seed id> <tier> <property> [--only substr]   -- apply a seeded change to /repo, run a check, undo the change
+# tools/run_seeded.sh <seed id> <tier> <property> [--only substr]
+# Runs a check against a scratch copy of /repo with the seeded change applied (VERIF_REPO points the check at the copy;
+# evidence and replay artefacts go to seeded/<id>/run/, /repo and evidence/ are not touched).  Equivalent to
+# `git -C /repo apply <patch>; ./check ...; git -C /repo checkout -- .`, but several seeds can be tried at once.
 set -u
 id=$1; tier=$2; prop=$3; shift 3
 cd /verif
-patch=seeded/$id/patch.diff
-[ -f seeded/$id/patch_ported_to_fixed_tree.diff ] && patch=seeded/$id/patch_ported_to_fixed_tree.diff
-if ! git -C /repo diff --quiet; then echo "/repo has uncommitted changes"; exit 3; fi
-git -C /repo apply $PWD/$patch || { echo "patch does not apply"; exit 3; }
-trap 'git -C /repo checkout -- .' EXIT
-out=seeded/$id/check_${prop}_${tier}.txt
-VERIF_JOBS=${VERIF_JOBS:-14} ./check $prop --tier $tier "$@" 2>&1 | grep -v "^warning\|^   |\|^    =\|^$" | tee $out
-echo "exit=${PIPESTATUS[0]}" | tee -a $out
+patch=$PWD/seeded/$id/patch.diff
+[ -f seeded/$id/patch_ported_to_fixed_tree.diff ] && patch=$PWD/seeded/$id/patch_ported_to_fixed_tree.diff
+copy=$(mktemp -d /tmp/seedrepo_${id}_XXXX)
+rsync -a --exclude target /repo/ $copy/
+git -C $copy apply $patch || { echo "patch does not apply"; rm -rf $copy; exit 3; }
+mkdir -p seeded/$id/run
+out=seeded/$id/run/check_${prop}_${tier}.txt
+VERIF_REPO=$copy VERIF_EVIDENCE_DIR=$PWD/seeded/$id/run VERIF_REPLAY_DIR=$PWD/seeded/$id/run/replay VERIF_JOBS=${VERIF_JOBS:-6} \
+  python3-vt -m mirseq.check $prop --tier $tier "$@" 2>&1 | grep --line-buffered -v "^warning\|^   |\|^    =\|^$" | tee $out
+rc=${PIPESTATUS[0]}
+echo "exit=$rc" | tee -a $out
+rm -rf $copy
+exit $rc
